@@ -1,5 +1,6 @@
 //! `vh` — conformance harness binding the TLA+ specifications in /verif/spec to the
 //! brave/sta-rs crates built from /repo's working tree.
+mod pure;
 mod agg;
 mod derive;
 mod field;
@@ -90,6 +91,7 @@ fn dispatch(sub: &str, a: &Args) -> Option<Report> {
     "generator-reuse" => star2::generator_reuse(a),
     "length-sweep" => star2::length_sweep(a),
     "cipher-check" => star2::cipher_check(a),
+    "purity-record" => pure::record(a),
     _ => return None,
   })
 }
